@@ -243,6 +243,19 @@ theorem pipeline_accepts (spec : List Opt) (ini : List (Str × CfgVal)) (dodo : 
   unfold parseOnly
   simp only [hg', hp1, withPos, withDodo]
 
+/-! ### command-line variables -/
+
+theorem stripVars_id (argv : List Str) (h : NoVarWords argv = true) : stripVars argv = .ok argv := by
+  induction argv with
+  | nil => rfl
+  | cons a r ih =>
+    simp only [NoVarWords, List.all_cons, Bool.and_eq_true, Bool.not_eq_true'] at h
+    have hr : NoVarWords r = true := by simpa [NoVarWords] using h.2
+    have ih' : stripVarsP false r = .ok r := ih hr
+    by_cases ha : a = []
+    · simp [stripVars, stripVarsP, ih', ha]
+    · simp [stripVars, stripVarsP, ih', ha, h.1]
+
 /-! ### config layers: `dict.update` per key -/
 
 theorem alookup_append {α β : Type _} [DecidableEq α] (k : α) (a b : List (α × β)) :
